@@ -11,6 +11,7 @@
 """
 import glob
 import json
+import re
 import os
 import shutil
 import subprocess
@@ -150,6 +151,34 @@ def detect(sid, props, runs):
     return 0
 
 
+def probe(sid, prop, seeds):
+    """Run the quick check of `prop` against the patched copy under several VERIF_SEEDs; prints only."""
+    d = os.path.join(SEEDED, sid)
+    base = f"/dev/shm/jade-seed-{os.getpid()}-{sid}"
+    shutil.rmtree(base, ignore_errors=True)
+    os.makedirs(base)
+    try:
+        shutil.copytree("/repo/jade", os.path.join(base, "jade"), ignore=shutil.ignore_patterns("__pycache__"))
+        rc, out = sh(["git", "apply", "--unsafe-paths", f"--directory={base}", os.path.join(d, "patch.diff")], cwd="/")
+        if rc:
+            print("cannot apply", out)
+            return 1
+        hits = 0
+        for seed in seeds:
+            env = dict(os.environ, JADE_VERIF_REPO=base, JV_EVIDENCE_DIR=os.path.join(base, "ev"),
+                       JV_REPLAY_DIR=os.path.join(base, "rp"), VERIF_SEED=str(seed))
+            r = subprocess.run([PY, "-m", "jv.check", prop, "--tier", "quick"], cwd=VERIF, env=env, capture_output=True,
+                               text=True, timeout=6000)
+            msgs = [ln for ln in r.stdout.splitlines() if ln.startswith("violation candidate")]
+            n = re.search(r"\((\d+) runs\)", msgs[0]).group(1) if msgs else "0"
+            hits += r.returncode == 1
+            print(f"{sid} {prop} VERIF_SEED={seed}: exit {r.returncode}, failing runs of first signature: {n}", flush=True)
+        print(f"{sid} {prop}: caught under {hits}/{len(seeds)} seeds")
+    finally:
+        shutil.rmtree(base, ignore_errors=True)
+    return 0
+
+
 def index():
     rows = []
     for mp in sorted(glob.glob(os.path.join(SEEDED, "*", "meta.json"))):
@@ -186,6 +215,8 @@ def main():
         return detect(a[1], props.split(",") if props else None, opt("--runs"))
     if a[0] == "index":
         return index()
+    if a[0] == "probe":
+        return probe(a[1], a[2], [int(x) for x in (a[3:] or ["1", "2", "3"])])
 
 
 if __name__ == "__main__":
